@@ -858,6 +858,7 @@ func exprShape(v ssa.Value, depth int) string {
 // c12More: R12.c (stable ordering of the pair scores) and R12.d (both strings
 // are normalised the same way).
 func c12More(p *load.Prog, r *oblig.Run) {
+	c12Weights(p, r)
 	r.Rule("R12.c", "the greedy matching in IndividualNodes.Similarity orders equal scores deterministically (stable sort)", 1)
 	r.Rule("R12.d", "StringSimilarity normalises both strings with the same chain of operations", 1)
 	if f := p.Method(load.PkgRoot, "IndividualNodes", "Similarity"); f != nil {
@@ -1027,5 +1028,98 @@ func c20NoEarlyExit(p *load.Prog, r *oblig.Run) {
 				o.OK("left only through its header")
 			}
 		}
+	}
+}
+
+// fieldPathName: the name of the (last) field a float value is read from, through value or pointer structs.
+func fieldPathName(v ssa.Value) string {
+	switch x := v.(type) {
+	case *ssa.Field:
+		st, ok := x.X.Type().Underlying().(*types.Struct)
+		if ok {
+			return st.Field(x.Field).Name()
+		}
+	case *ssa.UnOp:
+		if fa, ok := x.X.(*ssa.FieldAddr); ok && x.Op == token.MUL {
+			return su.FieldName(fa)
+		}
+	}
+	return ""
+}
+
+// c12Weights (R12.f/e): each component of the weighted similarity is multiplied by its own weight, and the
+// name-against-name comparison of two individuals covers the whole matrix.
+func c12Weights(p *load.Prog, r *oblig.Run) {
+	r.Rule("R12.f", "each similarity component is weighted with its own weight (XSimilarity * XWeight)", 4)
+	r.Rule("R12.e", "the name-against-name comparison of two individuals visits every pair (both loops run over their whole list)", 1)
+	ws := p.Method(load.PkgRoot, "SurroundingSimilarity", "WeightedSimilarity")
+	if ws == nil {
+		r.Add("R12.f", "anchor", "-", "anchor").Unknown("SurroundingSimilarity.WeightedSimilarity not found")
+	} else {
+		n := 0
+		for _, b := range ws.Blocks {
+			for _, ins := range b.Instrs {
+				bo, ok := ins.(*ssa.BinOp)
+				if !ok || bo.Op != token.MUL {
+					continue
+				}
+				a, c := fieldPathName(bo.X), fieldPathName(bo.Y)
+				if strings.HasSuffix(c, "Similarity") {
+					a, c = c, a
+				}
+				if !strings.HasSuffix(a, "Similarity") {
+					continue
+				}
+				n++
+				o := r.Add("R12.f", "weight of "+a, p.Pos(bo.Pos()), "factor "+a+" is multiplied with")
+				want := strings.TrimSuffix(a, "Similarity") + "Weight"
+				if c == want {
+					o.OK(a + " * " + c)
+				} else {
+					o.Fail(fmt.Sprintf("%s is multiplied by %q instead of %s: with weights that are not all equal the applied weights no longer sum to one and the weighted similarity leaves [0, 1]", a, c, want))
+				}
+			}
+		}
+		if n == 0 {
+			r.Add("R12.f", "products in WeightedSimilarity", p.Pos(ws.Pos()), "products").Unknown("no XSimilarity * weight product found")
+		}
+	}
+	sim := p.Method(load.PkgRoot, "IndividualNode", "Similarity")
+	o := r.Add("R12.e", "name matrix in IndividualNode.Similarity", "-", "range of the two loops over the names")
+	if sim == nil {
+		o.Unknown("IndividualNode.Similarity not found")
+		return
+	}
+	o.Pos = p.Pos(sim.Pos())
+	// loops whose header has an index phi: it must start at -1/0 (range form) or 0, never at another loop's index
+	bad, n := "", 0
+	for _, h := range loopHeaders(sim) {
+		for _, ins := range h.Instrs {
+			ph, ok := ins.(*ssa.Phi)
+			if !ok {
+				continue
+			}
+			if bt, isB := ph.Type().Underlying().(*types.Basic); !isB || bt.Info()&types.IsInteger == 0 {
+				continue
+			}
+			// entry edges (from blocks the header does not dominate)
+			for i, pr := range h.Preds {
+				if h.Dominates(pr) {
+					continue
+				}
+				n++
+				if k, isK := su.ConstInt(ph.Edges[i]); !isK || (k != 0 && k != -1) {
+					bad = "a loop index starts at " + ph.Edges[i].String() + " instead of the beginning of its list"
+				}
+			}
+		}
+	}
+	switch {
+	case n == 0:
+		o.Unknown("no index loops found")
+	case bad != "":
+		o.Fail(bad + ": pairs on one side of the diagonal are never compared, and which ones depends on the order of the operands - a.Similarity(b) and b.Similarity(a) differ for individuals with several names")
+	default:
+		o.OK(fmt.Sprintf("%d loop(s), each from the beginning of its list", n))
 	}
 }
